@@ -252,7 +252,8 @@ def run(out, tier, rng, work):
                 'periods on {1 ms..3 s}, one-shot and periodic, duplicate registrations, operations from inside timer callbacks, idle gaps, '
                 'jitter 1 or 400 us; every fifth history: a callback that blocks the job thread for 1.3..4.7 periods of another periodic timer (overrun), which must then be back on its grid; probe broadcasts make subscriptions observable; oracle: every due instant t_reg + k*delta is served '
                 'within [due, due+J], nothing fires early / after removal / too often; every handler log replayed on the Coq model; '
-                'non-trivial = at least one timer invocation; distinct by scenario hash')
+                'non-trivial = at least one timer invocation; distinct by scenario hash'
+                " Callbacks return True/1 (periodic) or False/None/0/2/'again'/[1]/0.5 (one-shot); registration through a controller application (never started / started and stopped) in 40 %; a quarter of the histories under the pre-emptive wake schedule (oracle only).")
     out.assumptions = ['A1-A3, A6 of DESIGN.md section 3; scheduling latency is the scenario jitter J',
                        'remove_timer racing with a pass that already holds the event on another thread is below handler granularity: not exhibited']
     sprop.run_stateful(out, 'C12', tier, rng, work, FILES, lambda r, k: (gen_busy(r) if k % 5 == 4 else gen(r, small=(k % 3 == 0))), oracle, 150, 2500,
